@@ -637,7 +637,7 @@ func runStress(rng *hx.Rng, r *hx.Run) result {
 	res := result{desc: fmt.Sprintf("stress g=%d inflight=%d wrap=%d close=%v views=%d", g, inflight, wrap, allowClose, len(w.views))}
 	select {
 	case <-done:
-	case <-time.After(60 * time.Second):
+	case <-time.After(20 * time.Second):
 		res.timedOut = true
 
 		return res
@@ -697,7 +697,7 @@ func runSnapshot(rng *hx.Rng, r *hx.Run) result {
 	}()
 	select {
 	case <-finished:
-	case <-time.After(30 * time.Second):
+	case <-time.After(20 * time.Second):
 		res.timedOut = true
 
 		return res
@@ -800,13 +800,19 @@ func main() {
 	if r.Tier == "thorough" {
 		n *= 2
 	}
-	for i := 0; i < n; i++ {
+	hangs := 0
+	for i := 0; i < n && hangs < 2; i++ {
 		rng, sub := r.Rng.Fork()
+		var res result
 		if i%8 == 7 {
-			emit(r, sub, runSnapshot(rng, r))
+			res = runSnapshot(rng, r)
 		} else {
-			emit(r, sub, runStress(rng, r))
+			res = runStress(rng, r)
 		}
+		if res.timedOut {
+			hangs++ // the hung goroutines are still there: after the second hang nothing that follows would be reliable
+		}
+		emit(r, sub, res)
 	}
 	r.Finish()
 }
